@@ -292,6 +292,66 @@ func runC05(p *Prog, r *Report) {
 		r.Check(covered[st], "C05.R2", tn+": store of the state in "+FName(st.Parent())+" is reached from a lock-taking method", p.InstrPos(st), "covered", "a store of the state is not reached from any method that takes the exclusive lock")
 	}
 
+	// the state and its deadline change together and only on a request's own path: the state setter stores the
+	// deadline it was given on every path (a re-trip that keeps the old recovery deadline ends the shield early),
+	// and it is never called from a function literal (a timer / goroutine that moves the state on its own can
+	// end a fallback period that a later trip started)
+	if cb.setState != nil {
+		isUntil := func(in ssa.Instruction) bool {
+			st, ok := in.(*ssa.Store)
+			if !ok || !isFieldAddr(st.Addr, cb.typ, cb.untilF) {
+				return false
+			}
+			_, isP := stripConv(st.Val).(*ssa.Parameter)
+			return isP
+		}
+		ret := ReturnReachableAvoiding(cb.setState, nil, isUntil, nil)
+		r.Paths++
+		r.Check(ret == nil, "C05.R2", tn+": the state setter stores the deadline it is given on every path", p.FuncPos(cb.setState), "every return of "+FName(cb.setState)+" has passed until := <parameter>",
+			"the state can change while the deadline keeps its old value"+posOf(p, ret)+": a trip during recovery inherits the remaining recovery time instead of the fallback duration and the breaker leaves the tripped state early")
+		var lit ssa.Instruction
+		for _, fn := range p.ModuleFuncs() {
+			if fn.Parent() == nil {
+				continue
+			}
+			for _, c := range Calls(fn) {
+				f := c.Common().StaticCallee()
+				if f == nil || recvNamed(f) != cb.typ {
+					continue
+				}
+				if f == cb.setState || storesStateTransitively(p, f, cb, 0) {
+					lit = c
+				}
+			}
+		}
+		// ... nor handed out as a method value or started as a goroutine (clock.AfterFunc(d, c.recovered), go c.x())
+		for _, fn := range p.ModuleFuncs() {
+			for _, b := range fn.Blocks {
+				for _, in := range b.Instrs {
+					var target *ssa.Function
+					switch x := in.(type) {
+					case *ssa.MakeClosure:
+						if w, _ := x.Fn.(*ssa.Function); w != nil && w.Synthetic != "" {
+							for _, c := range Calls(w) {
+								if g := c.Common().StaticCallee(); g != nil && recvNamed(g) == cb.typ {
+									target = g
+								}
+							}
+						}
+					case *ssa.Go:
+						if g := x.Common().StaticCallee(); g != nil && recvNamed(g) == cb.typ {
+							target = g
+						}
+					}
+					if target != nil && (target == cb.setState || storesStateTransitively(p, target, cb, 0)) {
+						lit = in
+					}
+				}
+			}
+		}
+		r.Check(lit == nil, "C05.R2", tn+": the state is moved only on a request's own path", "-", "no function literal (timer, goroutine, deferred closure) calls a routine that sets the state",
+			"a function literal calls a state-changing routine"+atInstr(p, lit)+": a timer or goroutine armed for one period can fire during a later one (tripped again in the meantime) and end that fallback period early")
+	}
 	// ---- R3 shielding ----
 	for _, ret := range Returns(cb.admit) {
 		k, isC := constBool(ReturnOperand(ret, 0))
@@ -563,6 +623,10 @@ func checkUntilArgs(p *Prog, r *Report, cb *cbInfo, rule string) {
 // ---------------- C12 ----------------
 
 func runC12(p *Prog, r *Report) {
+	// R11: a hook of the transition cannot hold up the requests of the recovery (shared with C18.R4)
+	r.Borrow(p, runC18, map[string]string{"C18.R4": "C12.R11"}, nil)
+	// R10: a recovery period is ended only by a request that finds it elapsed, never by a timer armed for an earlier one (shared with C05.R2)
+	r.Borrow(p, runC05, map[string]string{"C05.R2": "C12.R10"}, func(o Ob) bool { return strings.Contains(o.Construct, "request's own path") })
 	// R9: the breaker judges re-admitted requests by their final status: the recording writer keeps the last status it was given (shared with C20.R3)
 	r.Borrow(p, c20Wrappers, map[string]string{"C20.R3": "C12.R9"}, func(o Ob) bool { return strings.Contains(o.Construct, "records every status") })
 	// R8: the recovery duration is the configured one
@@ -857,6 +921,10 @@ func runC12(p *Prog, r *Report) {
 // ---------------- C18 ----------------
 
 func runC18(p *Prog, r *Report) {
+	// R10: the condition reads the current window only: the counters' clean-up visits every slot that may be stale (shared with C17.R4)
+	r.Borrow(p, runC17, map[string]string{"C17.R4": "C18.R10"}, nil)
+	// R9: the condition is evaluated over all completed responses: Record counts every one of them (shared with C17.R10)
+	c17RecordComplete(p, r, "C18.R9")
 	// R8: recording a completion and the reset at a trip cannot deadlock: the metrics' locks are taken in one order (shared with C09.R9)
 	if rt := p.Named("memmetrics", "RTMetrics"); rt != nil {
 		r.Floor("C18.R8", c09LockOrder(p, r, "C18.R8", []*types.Named{rt}), 1, "nested lock acquisitions of RTMetrics")
@@ -1262,6 +1330,7 @@ func c18FunctionMap(p *Prog, r *Report, funcs map[string]*ssa.Function) {
 func mutantsC05() []Mutant {
 	f := "cbreaker/cbreaker.go"
 	return []Mutant{
+		{Name: "retrip-keeps-old-deadline", File: "cbreaker/cbreaker.go", Old: "\tc.state = state\n\tc.until = until\n", New: "\tif c.state == stateRecovering && state == stateTripped {\n\t\tc.state = state\n\t\tc.exec(c.onTripped)\n\t\treturn\n\t}\n\tc.state = state\n\tc.until = until\n", Expect: "C05.R2"},
 		{Name: "fallback-duration-adjusted-after-options", File: "cbreaker/cbreaker.go", Old: "\tcondition, err := parseExpression(expression)\n", New: "\tcb.fallbackDuration += cb.checkPeriod\n\tcondition, err := parseExpression(expression)\n", Expect: "C05.R8"},
 		{Name: "options-requests-bypass-the-breaker", File: "cbreaker/cbreaker.go", Old: "\tif c.activateFallback(w, req) {\n", New: "\tif req.Method == http.MethodOptions {\n\t\tc.next.ServeHTTP(w, req)\n\t\treturn\n\t}\n\tif c.activateFallback(w, req) {\n", Expect: "C05.R3"},
 		{Name: "before-to-after", File: f, Old: "\t\tif clock.Now().UTC().Before(c.until) {\n\t\t\treturn true\n\t\t}", New: "\t\tif clock.Now().UTC().After(c.until) {\n\t\t\treturn true\n\t\t}", Expect: "C05.R3"},
@@ -1282,6 +1351,7 @@ func mutantsC05() []Mutant {
 func mutantsC12() []Mutant {
 	f, g := "cbreaker/ratio.go", "cbreaker/cbreaker.go"
 	return []Mutant{
+		{Name: "recovery-ended-by-timer", File: "cbreaker/cbreaker.go", Old: "\tc.rc = newRatioController(c.recoveryDuration, c.log)\n", New: "\tc.rc = newRatioController(c.recoveryDuration, c.log)\n\tclock.AfterFunc(c.recoveryDuration, func() {\n\t\tc.m.Lock()\n\t\tdefer c.m.Unlock()\n\t\tif c.state == stateRecovering {\n\t\t\tc.setState(stateStandby, clock.Now().UTC())\n\t\t}\n\t})\n", Expect: "C12.R10"},
 		{Name: "recovery-duration-adjusted-after-options", File: "cbreaker/cbreaker.go", Old: "\tcondition, err := parseExpression(expression)\n", New: "\tif cb.recoveryDuration < cb.checkPeriod {\n\t\tcb.recoveryDuration = cb.checkPeriod\n\t}\n\tcondition, err := parseExpression(expression)\n", Expect: "C12.R8"},
 		{Name: "lt-to-le", File: f, Old: "\tif e < t {", New: "\tif e <= t {", Expect: "C12.R1"},
 		{Name: "allowed-without-plus-one", File: f, Old: "e := r.computeRatio(r.allowed+1, r.denied)", New: "e := r.computeRatio(r.allowed, r.denied)", Expect: "C12.R1"},
@@ -1300,6 +1370,7 @@ func mutantsC12() []Mutant {
 func mutantsC18() []Mutant {
 	f, g := "cbreaker/cbreaker.go", "cbreaker/predicates.go"
 	return []Mutant{
+		{Name: "record-skips-counters-on-histogram-error", File: "memmetrics/roundtrip.go", Old: "func (m *RTMetrics) Record(code int, duration time.Duration) {\n", New: "func (m *RTMetrics) Record(code int, duration time.Duration) {\n\tif duration < 0 {\n\t\treturn\n\t}\n", Expect: "C18.R9"},
 		{Name: "check-period-defaulted-after-options", File: "cbreaker/cbreaker.go", Old: "\tcondition, err := parseExpression(expression)\n", New: "\tif cb.checkPeriod == 0 {\n\t\tcb.checkPeriod = defaultCheckPeriod\n\t}\n\tcondition, err := parseExpression(expression)\n", Expect: "C18.R7"},
 		{Name: "no-metrics-reset", File: f, Old: "\tc.setState(stateTripped, clock.Now().UTC().Add(c.fallbackDuration))\n\tc.metrics.Reset()\n", New: "\tc.setState(stateTripped, clock.Now().UTC().Add(c.fallbackDuration))\n", Expect: "C18.R3"},
 		{Name: "exec-from-check", File: f, Old: "\tc.setState(stateTripped, clock.Now().UTC().Add(c.fallbackDuration))\n\tc.metrics.Reset()\n", New: "\tc.setState(stateTripped, clock.Now().UTC().Add(c.fallbackDuration))\n\tc.exec(c.onTripped)\n\tc.metrics.Reset()\n", Expect: "C18.R4"},
@@ -1319,4 +1390,21 @@ func mutantsC18() []Mutant {
 		{Name: "range-end-inclusive", File: "memmetrics/roundtrip.go", Old: "\t\tif code < endA && code >= startA {", New: "\t\tif code <= endA && code >= startA {", Expect: "C18.R1"},
 		{Name: "proxywriter-first-status-wins", File: "utils/netutils.go", Old: "\tp.code = code\n\tp.w.WriteHeader(code)\n", New: "\tif p.code == 0 {\n\t\tp.code = code\n\t}\n\tp.w.WriteHeader(code)\n", Expect: "C18.R6"},
 	}
+}
+
+// storesStateTransitively: f (a method of the breaker) stores the state field or calls, on the same receiver, a
+// method that does.
+func storesStateTransitively(p *Prog, f *ssa.Function, cb *cbInfo, d int) bool {
+	if d > 4 || f == nil || f.Blocks == nil {
+		return false
+	}
+	if len(FieldStores(f, cb.typ, cb.stateF)) > 0 {
+		return true
+	}
+	for _, c := range Calls(f) {
+		if g := c.Common().StaticCallee(); g != nil && g != f && recvNamed(g) == cb.typ && storesStateTransitively(p, g, cb, d+1) {
+			return true
+		}
+	}
+	return false
 }
